@@ -3,6 +3,7 @@ Specs: data/Lmq.tla, data/Msgq.tla, data/IdMap.tla.   Binding: replay of the com
 TLC graphs on nni_lmq_*, nni_msgq_* and nng_id_* (harness/drv_data.c, ASan+UBSan, accounting allocator)."""
 from vlib import *
 from replay import replay_walks
+from vlib import matches, canon
 
 DRV = ["drv_data.c", "acct.c"]
 
@@ -14,7 +15,7 @@ def lmq_cmd(a):
 
 def mq_cmd(a):
     k = a["a"]
-    if k in ("aio_put", "tryput"):
+    if k in ("aio_put", "tryput", "nb_put"):
         return "%s %d" % (k, a["m"])
     if k == "cancel":
         return "cancel %d" % a["i"]
@@ -38,23 +39,51 @@ def sig_lmq(acts, idx, step, allowed):
     return "lmq.%s:after-%s" % (a, hist or "init")
 
 
+def sig_mq(acts, idx, step, allowed):
+    """action, the action before it, and what differs: the completions (out) or a poll descriptor / counter (obs.<field>)"""
+    a = acts[idx]["a"] if idx < len(acts) else "fin"
+    prev = acts[idx - 1]["a"] if idx > 0 else "init"
+    what = "?"
+    if step is not None and step[0] == "fin":
+        what = "fin"
+    elif step is not None and allowed:
+        if not any(matches(canon(step[1]), e["out"]) for e in allowed):
+            what = "out"
+        else:
+            o = canon(step[2] or {})
+            ks = set()
+            for e in allowed:
+                if matches(canon(step[1]), e["out"]):
+                    ks |= {k for k in set(o) | set(e["obs"]) if not matches(o.get(k), e["obs"].get(k))}
+            what = "obs." + ",".join(sorted(ks))
+    return "mq.%s-after-%s:%s" % (a, prev, what)
+
+
 def run(v, tier, rng):
+    run_parts(v, tier, rng, ("lmq", "mq", "mq3", "id"))
+
+
+def run_parts(v, tier, rng, parts):
     exe = build_driver("drv_data", DRV)
     thorough = tier == "thorough"
     # ---- 1. model checking of the three specs (implementation-shaped layer refines the abstract one)
     for spec, cfg, w in (("data/Lmq.tla", "Lmq_mc.cfg", 4), ("data/IdMap.tla", "IdMap_mc.cfg" if thorough else "IdMap_q.cfg", 8),
                          ("data/Msgq.tla", "Msgq_mc.cfg" if thorough else "Msgq_q.cfg", 8)):
+        if not any(p_ in spec.lower() for p_ in ("lmq" if "lmq" in parts else "-", "idmap" if "id" in parts else "-", "msgq" if "mq" in parts else "-")):
+            continue
         r = tlc(spec, cfg, workers=w, timeout=1500, want_cov=False)
         tlc_require_ok(r, spec + "/" + cfg)
         v.add_tlc(spec + ":" + cfg, r)
     # ---- 2. spec -> code: edge cover replay
     plan = [("lmq", "data/Lmq.tla", "Lmq_gen.cfg", lmq_cmd, lambda ia: "init %d" % ia["cap"], 40, sig_lmq),
-            ("mq", "data/Msgq.tla", "Msgq_gen2.cfg" if thorough else "Msgq_gen.cfg", mq_cmd, lambda ia: "init %d" % ia["cap"], 30, None),
+            ("mq", "data/Msgq.tla", "Msgq_gen2.cfg" if thorough else "Msgq_gen.cfg", mq_cmd, lambda ia: "init %d" % ia["cap"], 30, sig_mq),
             # capacity 3 with ring wrap-around and growth: complete in the thorough tier, a seeded third of it in the quick tier
-            ("mq3", "data/Msgq.tla", "Msgq_gen3.cfg", mq_cmd, lambda ia: "init %d" % ia["cap"], 30, None),
+            ("mq3", "data/Msgq.tla", "Msgq_gen3.cfg", mq_cmd, lambda ia: "init %d" % ia["cap"], 30, sig_mq),
             ("id", "data/IdMap.tla", "IdMap_gen.cfg" if not thorough else "IdMap_gen2.cfg", id_cmd,
              lambda ia: "init %d %d" % (ia["lo"], ia["hi"]), 60, None)]
     for obj, spec, cfg, to_cmd, init_cmd, maxlen, sigf in plan:
+        if obj not in parts:
+            continue
         g = tlc_edges(spec, cfg, timeout=1500)
         v.cov["states"] += g["distinct"]
         v.cov["transitions"] += len(g["edges"])
